@@ -5,10 +5,10 @@ import Proofs.Null
 import SpyneModel.NullExt
 namespace SpyneModel.Null
 
-theorem first_ne_fault (v : Val) (c : String) : first v ≠ .fault c := by
+theorem first_ne_fault (v : Val) (c : Flt) : first v ≠ .fault c := by
   unfold first; split <;> simp
 
-theorem cbSync_ne_fault (F : Facts18) (s : Sig) (out : Val) (c : String) : cbSync F s out ≠ .fault c := by
+theorem cbSync_ne_fault (F : Facts18) (s : Sig) (out : Val) (c : Flt) : cbSync F s out ≠ .fault c := by
   unfold cbSync
   split
   · simp
